@@ -15,7 +15,7 @@ RULE = ('all well-formed signatures of <=3 (quick) / <=4 (thorough) parameters o
         'cases - the same inputs sent as JSON-RPC params to a generated method whose body returns its bound arguments, with the '
         'context parameter at each position and in each passing mode (by name, first positional, view constructor) x plain '
         'function / coroutine (async dispatcher) / class-based view method (ordinary and @staticmethod); a mapping naming the context parameter is included; the context object is drawn from truthy and falsy values ({}, 0, None, '', [], False). '
-        'route cases: methods with a context parameter (by name / positional, incl. a positional-only one) registered through a registry or a merged registry. reserved-name cases: parameters called method / self / params / context / request / name / func / args / kwargs / cls / id / exclude / positional; fragment cases: an ordinary parameter whose name is a fragment of the name of the context parameter (request / quest, context / text, ctx / c, ab / a) and the reverse. twin cases: the SAME function registered twice (with and without a context designation), one registration served first, the other observed. distinct = distinct (signature, context mode, kind, params); non-trivial = the method body ran')
+        'route cases: methods with a context parameter (by name / positional, incl. a positional-only one) registered through a registry or a merged registry. reserved-name cases: parameters called method / self / params / context / request / name / func / args / kwargs / cls / id / exclude / positional; raising cases: a sample of all the above with a body that raises TypeError after logging its arguments; fragment cases: an ordinary parameter whose name is a fragment of the name of the context parameter (request / quest, context / text, ctx / c, ab / a) and the reverse. twin cases: the SAME function registered twice (with and without a context designation), one registration served first, the other observed. distinct = distinct (signature, context mode, kind, params); non-trivial = the method body ran')
 EXHAUSTIVE = {'quick': True, 'thorough': True}
 TRUSTED_BASE = ['CPython 3.12 call binding and inspect.Signature.bind as transcribed in Model/Bind.v (py_call is validated '
                 'against the interpreter on every run by the python cases)']
@@ -133,6 +133,9 @@ def generate(seed, tier):
                     continue
                 for inp in inputs(ren):
                     cases.append({'t': 'disp', 'sig': ren, 'cm': cm, 'inp': inp, 'async': rnd.random() < 0.5, 'ctxv': 0})
+    # the body itself raises a TypeError worded like the interpreter's own binding errors: the call was accepted all the same
+    for c in [c for i, c in enumerate(cases) if c['t'] == 'disp' and i % 11 == 0 and not c.get('twin')]:
+        cases.append(dict(c, raises=True))
     # parameter names that are fragments of the context parameter's name (and the other way round)
     for ctxname, frag in (('request', 'quest'), ('context', 'text'), ('ctx', 'c'), ('ctx', 'x'), ('ab', 'a'), ('ab', 'b'), ('c', 'ctx')):
         for sg in simple2:
@@ -185,7 +188,7 @@ def observe(case):
 
 def cfg_of(case):
     sig = [tuple(p) for p in case['sig']]
-    ms = [{'name': 'f', 'sig': sig, 'ctx': tuple(case['cm']), 'body': ('env',)}]
+    ms = [{'name': 'f', 'sig': sig, 'ctx': tuple(case['cm']), 'body': ('exc', 10) if case.get('raises') else ('env',)}]
     if case.get('via'):
         ms[0]['via'] = case['via']
     if case.get('twin'):
